@@ -67,6 +67,7 @@ type RunSpec struct {
 	Permute  bool
 	WriteMon bool
 	SharedExplicit bool
+	ArbNarrow bool
 	Unwind   int
 	ReplayPkgDir func(harness string) string // directory of the package holding a harness
 	Transparent []string
@@ -176,6 +177,7 @@ func runCheck(p *Prop, tier string, seed int64) int {
 		cfg.WriteMonitor = rs.WriteMon
 		cfg.SharedExplicit = rs.SharedExplicit
 		cfg.ArbWide = rs.ArbWide
+		cfg.ArbNarrow = rs.ArbNarrow
 		if rs.Unwind > 0 {
 			cfg.Unwind = rs.Unwind
 		}
@@ -459,6 +461,7 @@ func runCheck(p *Prop, tier string, seed int64) int {
 		"reach_witnesses_replayed":      wit,
 		"known_findings_seen":           knownSeen,
 		"inconclusive":                  inconclusive,
+		"outside_this_run":              c.Info,
 		"violations_detail":             violations,
 	}
 	if len(samples) == 0 {
